@@ -39,7 +39,7 @@ func buildConfig(w *World, a Alphabet, style NodeStyle, r *rt.Rand, nops int) ([
 		}
 	}
 	for i := 0; i < nops; i++ {
-		op := a.GenOp(r)
+		op := a.GenOpM(r, w.M)
 		op.CloseFail = false
 		ops = append(ops, op)
 		if out := w.Apply(op, style); out.Mismatch != "" {
@@ -68,6 +68,9 @@ func TestC01(t *testing.T) {
 	r := run.Rand()
 	ncfg := run.N(400, 20000)
 	for c := 0; c < ncfg; c++ {
+		if run.Stop() {
+			break
+		}
 		cr := r.Fork()
 		w := NewWorld(cr.Fork())
 		a := cfgAlphabet(cr)
@@ -180,15 +183,18 @@ func checkC01(run *rt.Run, w *World, o *SendObs, ops []Op, stop bool, stopAt tim
 		} else if e.Created.IsZero() || e.Created.Before(o.T0.Add(-time.Millisecond)) || e.Created.After(o.T1.Add(time.Millisecond)) {
 			run.Violation("history-pattern:created-at", fmt.Sprintf("CreatedAt %v outside the Send call interval [%v,%v]", e.Created, o.T0, o.T1), wit())
 		}
-		if roots[e.Node] && e.Node.Behaviour(o.SendID) != Replace {
-			// only the first node of a pipeline is promised an empty table (no harness node formats)
-		}
-		if e.FmtNil || e.FmtLen != 0 {
-			run.Violation("history-pattern:format-table", fmt.Sprintf("event reached a node with format table nil=%v len=%d although no node formats", e.FmtNil, e.FmtLen), wit())
-		}
 	}
 	full := !o.Cancelled
 	ok, why := decompose(o.Expected, o.Entries, full)
+	if ok {
+		// the first node of every traversal is promised an empty (non-nil) format table
+		for _, e := range o.Entries {
+			if e.stepIdx == 0 && e.Prov == o.SendID && (e.FmtNil || e.FmtLen != 0) {
+				run.Violation("history-pattern:format-table", fmt.Sprintf("the first node of a pipeline received an event whose format table is nil=%v / holds %d entries", e.FmtNil, e.FmtLen), wit())
+				break
+			}
+		}
+	}
 	if !ok {
 		key := "history-pattern:traversal"
 		if o.Cancelled {
